@@ -241,7 +241,11 @@ def apply(state, op, ctx, case):
         clone = type(real).from_dict(d)
         m2 = dict(model)
         _agree(clone, m2, ctx, case, "dict:" + ("flat" if op["flat"] else "nested"), weights_exact=False)
-        pairs.append((clone, model))
+        # from_dict recomputes the weights as exp(log_w) (agreement just checked to 1e-5): later exact comparisons of this object
+        # refer to the weights it actually holds
+        if m2.get("weights") is not None and getattr(clone, "weights", None) is not None:
+            m2["weights"] = env.to_np(clone.weights)
+        pairs.append((clone, m2))
         return
     raise ValueError(kind)
 
